@@ -3,6 +3,7 @@ use std::rc::Rc;
 
 use rustc_hash::FxHashMap;
 
+use crate::checks::check_toplevel_items_in_env;
 use crate::checks::type_checker::check_types;
 use crate::diagnostics::Severity;
 use crate::env::Env;
@@ -38,6 +39,7 @@ pub(crate) fn add_type_annotation(
         end_offset,
         id_to_ty: &summary.id_to_ty,
         candidates: vec![],
+        fun_depth: 0,
     };
     for item in &items {
         finder.visit_toplevel_item(item);
@@ -66,20 +68,15 @@ pub(crate) fn add_type_annotation(
     // reach it, e.g. an unannotated parameter that is returned from a
     // function we're giving a return type. Don't offer a hint that
     // the checker would then reject.
-    let num_errors_before = summary
-        .diagnostics
-        .iter()
-        .filter(|d| matches!(d.severity, Severity::Error))
-        .count();
-    if num_type_errors(&result, path) > num_errors_before {
+    if num_check_errors(&result, path) > num_check_errors(src, path) {
         return Err("The inferred type annotation would not type check here.".to_owned());
     }
 
     Ok(result)
 }
 
-/// The number of errors that the type checker reports for `src`.
-fn num_type_errors(src: &str, path: &Path) -> usize {
+/// The number of errors that `garden check` reports for `src`.
+fn num_check_errors(src: &str, path: &Path) -> usize {
     let mut id_gen = IdGenerator::default();
     let (vfs, vfs_path) = Vfs::singleton(path.to_owned(), src.to_owned());
 
@@ -88,10 +85,8 @@ fn num_type_errors(src: &str, path: &Path) -> usize {
     let mut env = Env::new(id_gen, vfs);
     let ns = env.get_or_create_namespace(path);
     load_toplevel_items(&items, &mut env, Rc::clone(&ns));
-    let summary = check_types(&vfs_path, &items, &env, ns);
 
-    summary
-        .diagnostics
+    check_toplevel_items_in_env(&vfs_path, &items, &env, ns)
         .iter()
         .filter(|d| matches!(d.severity, Severity::Error))
         .count()
@@ -114,6 +109,9 @@ struct AnnotationFinder<'a> {
     end_offset: usize,
     id_to_ty: &'a FxHashMap<SyntaxId, Type>,
     candidates: Vec<Candidate>,
+    /// How many function definitions and function literals enclose
+    /// the syntax we're visiting.
+    fun_depth: usize,
 }
 
 impl AnnotationFinder<'_> {
@@ -130,7 +128,7 @@ impl AnnotationFinder<'_> {
         let Some(ty) = self.id_to_ty.get(&sym.id) else {
             return;
         };
-        let Some(ty_src) = annotation_src(ty) else {
+        let Some(ty_src) = self.annotation_src_here(ty) else {
             return;
         };
 
@@ -164,7 +162,7 @@ impl AnnotationFinder<'_> {
         let Some(ty) = self.body_return_ty(&fun_info.body) else {
             return;
         };
-        let Some(ty_src) = annotation_src(&ty) else {
+        let Some(ty_src) = self.annotation_src_here(&ty) else {
             return;
         };
 
@@ -174,6 +172,19 @@ impl AnnotationFinder<'_> {
             insert_offset: fun_info.params.close_paren.end_offset,
             annotation: format!(": {ty_src}"),
         });
+    }
+
+    /// Render `ty` as a type annotation for the syntax we're visiting.
+    ///
+    /// A function literal is evaluated in its own stack frame, which
+    /// doesn't know the type parameters of the function it's written
+    /// in, so a hint that mentions them can't be used there.
+    fn annotation_src_here(&self, ty: &Type) -> Option<String> {
+        if self.fun_depth >= 2 && mentions_type_parameter(ty) {
+            return None;
+        }
+
+        annotation_src(ty)
     }
 
     /// The inferred return type of a function body: the type of its
@@ -188,6 +199,8 @@ impl AnnotationFinder<'_> {
 
 impl Visitor for AnnotationFinder<'_> {
     fn visit_fun_info(&mut self, fun_info: &FunInfo) {
+        self.fun_depth += 1;
+
         self.consider_return_type(fun_info);
 
         for param in &fun_info.params.params {
@@ -197,6 +210,8 @@ impl Visitor for AnnotationFinder<'_> {
         }
 
         self.visit_fun_info_default(fun_info);
+
+        self.fun_depth -= 1;
     }
 
     fn visit_expr_let(
@@ -234,6 +249,22 @@ fn annotation_src(ty: &Type) -> Option<String> {
         _ if ty.is_no_value() => None,
         _ if !is_fully_known(ty) => None,
         _ => Some(ty.to_string()),
+    }
+}
+
+fn mentions_type_parameter(ty: &Type) -> bool {
+    match ty {
+        Type::TypeParameter(_) => true,
+        Type::Any => false,
+        Type::Error { inferred_type, .. } => match inferred_type {
+            Some(ty) => mentions_type_parameter(ty),
+            None => false,
+        },
+        Type::Tuple(elem_tys) => elem_tys.iter().any(mentions_type_parameter),
+        Type::Fun {
+            params, return_, ..
+        } => params.iter().any(mentions_type_parameter) || mentions_type_parameter(return_),
+        Type::UserDefined { args, .. } => args.iter().any(mentions_type_parameter),
     }
 }
 
